@@ -56,6 +56,54 @@ def generate(ctx):
     return errs
 
 
+# ------------------------------------------------------------------ structural pins
+def structural_pins():
+    """Facts about the SHAPE of the source that the hand-written glue relies on and that rs2v's anchored
+    expressions cannot express. Returns list of failure strings (empty = ok).
+    Pin 1: in ChannelManager::can_forward_htlc_should_intercept, `None =>` arm (no channel for the onion's
+    SCID), the amount sanity check `next_hop.outgoing_amt_msat > msg.amount_msat` sits directly in the arm
+    (brace depth 1) and BEFORE the phantom / intercept classification, so it dominates both outcomes
+    (Model/FwdAdmission.v no_channel_admission)."""
+    bad = []
+    try:
+        src = open(os.path.join(core.REPO, "lightning/src/ln/channelmanager.rs")).read()
+        i = src.index("fn can_forward_htlc_should_intercept(")
+        fn = src[i:i + 9000]
+        j = fn.index("None => {", fn.index("do_funded_channel_callback"))
+        arm = fn[j + len("None => {"):]
+        depth, k, end = 1, 0, None
+        pos_amt = pos_cltv = pos_phantom = None
+        depth_amt = None
+        while k < len(arm):
+            c = arm[k]
+            if arm.startswith("//", k):
+                k = arm.index("\n", k)
+                continue
+            if c == "{":
+                depth += 1
+            elif c == "}":
+                depth -= 1
+                if depth == 0:
+                    end = k
+                    break
+            if pos_amt is None and arm.startswith("if next_hop.outgoing_amt_msat > msg.amount_msat", k):
+                pos_amt, depth_amt = k, depth
+            if pos_cltv is None and arm.startswith("if cltv_delta < MIN_CLTV_EXPIRY_DELTA", k):
+                pos_cltv = k
+            if pos_phantom is None and arm.startswith("fake_scid::is_valid_phantom(", k):
+                pos_phantom = k
+            k += 1
+        if pos_amt is None:
+            bad.append("pin 1: the amount sanity check is gone from the no-channel arm of can_forward_htlc_should_intercept")
+        elif depth_amt != 1 or pos_phantom is None or pos_amt > pos_phantom:
+            bad.append("pin 1: the amount sanity check of the no-channel arm no longer dominates the phantom and intercept outcomes (brace depth %s, %s the phantom/intercept classification)" % (depth_amt, "after" if pos_phantom is not None and pos_amt > pos_phantom else "relative to"))
+        if pos_cltv is None or (pos_phantom is not None and pos_cltv > pos_phantom):
+            bad.append("pin 1: the CLTV sanity check of the no-channel arm no longer precedes the classification")
+    except (ValueError, OSError) as ex:
+        bad.append("pin 1: can_forward_htlc_should_intercept / its `None =>` arm not found (%r)" % (ex,))
+    return bad
+
+
 # ------------------------------------------------------------------ exact reference arithmetic (judge only)
 def gross(a, base, prop):
     return a + (a * prop // M + base)
@@ -483,6 +531,8 @@ def _fwd_worker(args):
     import collections
     import subprocess
     from props.c02 import fwdjudge as J, fwdmodel as FM
+    if args[0] == "scripted":
+        return _scripted_worker(args)
     binp, seed, first, count, out = args
     if os.path.basename(binp) == "h_fwdm":
         return _fwdm_worker(args)
@@ -570,6 +620,92 @@ def _fwdm_worker(args):
     return violating, agg, [("dust", samples)], total
 
 
+def _scripted_worker(args):
+    """Scripted families of h_fwdm: ('scripted', bin, subcmd, a, b, outfile)."""
+    import collections
+    import subprocess
+    from props.c02 import fwdjudge as J, fwdmjudge as JM
+    _, binm, sub, a, b, out = args
+    try:
+        rc = subprocess.call([binm, sub, str(a), str(b), out], cwd=os.path.dirname(out),
+                             stdout=subprocess.DEVNULL, stderr=subprocess.DEVNULL, timeout=1700)
+    except subprocess.TimeoutExpired:
+        rc = 124
+    agg = collections.Counter()
+    violating, cases = [], []
+    if rc != 0 or not os.path.exists(out):
+        violating.append((0, {"harness": "h_fwdm", "script": sub}, [{"key": "harness", "judge": "harness", "why": "h_fwdm %s exited with %s" % (sub, rc), "step": 0}], []))
+        return violating, agg, [("scripted", cases)], 0
+    n = 0
+    for (k, recs) in sorted(J.parse(out).items()):
+        V, F = JM.judge_scripted(recs)
+        for kk, vv in F.items():
+            agg["s_" + kk] += vv
+        for (_, step, kind, kv) in recs:
+            if kind in ("ICPT", "ONCH"):
+                cases.append((kind, kv))
+                n += 1
+            if kind == "SPLICE":
+                n += 1
+                if int(kv.get("claims", "0")) == 0 and kv.get("htlc_output") == "true":
+                    V.append({"key": "c:late-preimage-onchain", "judge": "c:claim-whenever-known (on chain)",
+                              "why": "B learned the preimage %s the upstream commitment (splice state %s) confirmed, the HTLC has an output there, and B broadcast no claim for it" % (
+                                  {"0": "before", "1": "right after", "2": "six blocks after"}.get(kv.get("timing"), "?"),
+                                  {"0": "none", "1": "splice confirmed, not locked"}.get(kv.get("splice"), "?")), "step": 0, "case": kv})
+        if V:
+            violating.append((k, {"harness": "h_fwdm", "script": sub, "case": V[0].get("case", {}),
+                                  "rerun": "%s %s %s %s /tmp/c02s.trace" % (binm, sub, a, b)}, V, []))
+    if not violating:
+        os.remove(out)
+    return violating, agg, [("scripted", cases)], n
+
+
+def scripted_model_check(ctx, cases):
+    """The model's prediction for every scripted interception / on-chain case against what the node did."""
+    exprs, meta = [], []
+    for (kind, kv) in cases:
+        if kind == "ICPT" and kv["kind"] in ("0", "1"):
+            k, fi, fu = ("ScidIntercept", "true", "false") if kv["kind"] == "0" else ("ScidOther", "false", "true")
+            exprs.append("match no_channel_admission %s %s %s %s %s %s %s %s with ROk b => if b then 1 else 0 | RErr _ => -1 end" % (
+                k, fi, fu, kv["height"], kv["in_amt"], kv["in_cltv"], kv["onion_amt"], kv["onion_cltv"]))
+            meta.append((kind, kv, 1 if kv["intercepted"] == "1" else -1))
+        elif kind == "ICPT" and kv["kind"] in ("2", "3", "4"):
+            # a known channel: the regenerated config check and CLTV check decide (htlc_minimum is far below)
+            exprs.append("match internal_htlc_satisfies_config %s %s %s %s (mkChannelConfig %s %s %s) with ROk _ => match check_incoming_htlc_cltv %s %s %s MIN_CLTV_EXPIRY_DELTA with ROk _ => 1 | RErr _ => -1 end | RErr _ => -1 end" % (
+                kv["in_amt"], kv["in_cltv"], kv["onion_amt"], kv["onion_cltv"], kv["prop"], kv["base"], kv["delta"],
+                kv["height"], kv["onion_cltv"], kv["in_cltv"]))
+            meta.append((kind, kv, 1 if kv["intercepted"] == "1" else -1))
+        elif kind == "ONCH":
+            # the judge's "live output" (read off the confirmed transaction) against the regenerated is_dust
+            # of Gen/TxBuilder.v for the commitment that confirmed: B's own (HTLC offered) or C's (HTLC received)
+            if "feerate" in kv:
+                holder = kv["which"] in ("0", "1")
+                exprs.append("if is_dust (mkHTLCAmountDirection true %s) %s %s 354 (mkChannelTypeFeatures false false) then 0 else 1" % (
+                    kv["amt"], "true" if holder else "false", kv["feerate"]))
+                outs0 = [int(x) for x in kv["outs"].split("/") if x]
+                meta.append(("ONCH-dust", kv, 1 if (int(kv["amt"]) // 1000) in outs0 else 0))
+            ck = {"0": "HolderCurrent", "1": "HolderPrevious", "2": "CounterpartyCurrent"}[kv["which"]]
+            outs = [int(x) for x in kv["outs"].split("/") if x]
+            live = (int(kv["amt"]) // 1000) in outs
+            pre = "; LFailMsg; LCommitFail" if kv["which"] == "1" else ""
+            exprs.append("cu (up (m (run init [LForward%s; LCloseD %s %s; LChainNoOutputBuried])))" % (pre, ck, "true" if live else "false"))
+            meta.append((kind, kv, 3 if int(kv["failed_at_depth"]) >= 0 else 0))
+    if not exprs:
+        return [], 0
+    from props.c02 import fwdmodel as FM
+    B = 60
+    groups = [exprs[i:i + B] for i in range(0, len(exprs), B)]
+    vals = ctx.coq_eval("corr_scripted", ["LdkV.Prim.U64", "LdkV.Gen.Consts", "LdkV.Gen.CltvChecks", "LdkV.Gen.CfgChecks", "LdkV.Gen.FwdChecks",
+                                          "LdkV.Gen.ChanUtilsFees", "LdkV.Gen.TxBuilder", "LdkV.Model.FwdAdmission", "LdkV.Model.Fwd"],
+                        ["[" + "; ".join("(%s)" % e for e in g) + "]" for g in groups], prelude=FM.PRELUDE, shards=min(8, len(groups)))
+    got = [int(x) for v in vals for x in re.findall(r"-?\d+", v)]
+    bad = []
+    for (kind, kv, exp), g in zip(meta, got):
+        if g != exp:
+            bad.append({"scripted_case": kind, "case": kv, "model": g, "implementation": exp})
+    return bad, len(exprs)
+
+
 def dust_crosscheck(ctx, samples):
     """The judge's own dust arithmetic (fwdmjudge.dust_sum) against the regenerated get_dust_exposure_stats of
     Gen/TxBuilder.v on the HTLC sets met in the traces. Returns list of disagreements."""
@@ -614,12 +750,20 @@ def trace_check(ctx, model_ok):
             if HAVE_FWDM:
                 firstm = (rnd * shards + sh) * per_round_m
                 jobs.append((binm, ctx.seed, firstm, per_round_m, os.path.join(ctx.tmp, "fwdm_%d_%d.trace" % (rnd, sh))))
+    scripted_cases = []
+    if HAVE_FWDM:
+        jobs.append(("scripted", binm, "intercept", 0, 0, os.path.join(ctx.tmp, "fwdm_intercept.trace")))
+        jobs.append(("scripted", binm, "splice", 0, 0, os.path.join(ctx.tmp, "fwdm_splice.trace")))
+        for sh in range(8):
+            jobs.append(("scripted", binm, "onchain", sh, 8, os.path.join(ctx.tmp, "fwdm_onchain_%d.trace" % sh)))
     with multiprocessing.Pool(shards) as pool:
         for (v, a, mi, n) in pool.imap_unordered(_fwd_worker, jobs):
             violating += v
             agg.update(a)
             total += n
-            if mi and mi[0][0] == "dust":
+            if mi and mi[0][0] == "scripted":
+                scripted_cases += mi[0][1]
+            elif mi and mi[0][0] == "dust":
                 if len(dust_samples) < 400:
                     dust_samples += mi[0][1]
             elif len(items) < (4000 if ctx.tier == "quick" else 20000):
@@ -637,27 +781,6 @@ def trace_check(ctx, model_ok):
     except Exception as ex:
         cov_script = ["error: %r" % (ex,)]
     agg["script1_violation_keys=" + ",".join(sorted(set(cov_script)))] += 1
-    # scripted cases: preimage learned before / after the close of a plain or spliced upstream channel
-    if HAVE_FWDM:
-        outs = os.path.join(ctx.tmp, "fwdm_splice.trace")
-        core.sh([binm, "splice", "0", "0", outs], cwd=ctx.tmp, timeout=600)
-        ncases = 0
-        try:
-            for (k, recs) in sorted(J.parse(outs).items()):
-                for (_, step, kind, kv) in recs:
-                    if kind == "SPLICE":
-                        ncases += 1
-                        if int(kv.get("claims", "0")) == 0 and kv.get("htlc_output") == "true":
-                            violating.append((k, {"harness": "h_fwdm", "script": "splice", "case": kv},
-                                              [{"key": "c:late-preimage-onchain", "judge": "c:claim-whenever-known (on chain)",
-                                                "why": "B learned the preimage %s the upstream commitment (splice state %s) confirmed, the HTLC has an output there, and B broadcast no claim for it" % (
-                                                    {"0": "before", "1": "right after", "2": "six blocks after"}.get(kv.get("timing"), "?"),
-                                                    {"0": "none", "1": "splice confirmed, not locked"}.get(kv.get("splice"), "?")), "step": 0}], []))
-                    elif kind == "PANIC":
-                        violating.append((k, {"harness": "h_fwdm", "script": "splice"}, [{"key": "harness", "judge": "harness/implementation panic", "why": kv.get("msg", "?")[:300], "step": 0}], []))
-        except Exception as ex:
-            violating.append((0, {"harness": "h_fwdm", "script": "splice"}, [{"key": "harness", "judge": "harness", "why": "splice cases: %r" % (ex,), "step": 0}], []))
-        agg["splice_cases"] = ncases
     violating.sort(key=lambda x: (x[1].get("harness", ""), x[0]))
     items.sort(key=lambda x: x[0])
     ctx.timed("fwd_traces_s", _t.time() - t0)
@@ -678,6 +801,11 @@ def trace_check(ctx, model_ok):
         cov["model_traces_checked"] = len(items)
         cov["model_checks"] = nchecks
         cov["model_mismatching_traces"] = len(mism)
+    if model_ok and scripted_cases:
+        bad, nsc = scripted_model_check(ctx, scripted_cases)
+        cov["scripted_model_checks"] = nsc
+        if bad:
+            mism.append({"scripted_cases_vs_model": bad[:4], "n": len(bad)})
     if model_ok and dust_samples:
         bad = dust_crosscheck(ctx, dust_samples[:400])
         cov["dust_crosscheck_points"] = len(dust_samples[:400])
@@ -694,6 +822,12 @@ def run(ctx):
         ctx.write_evidence(LEVEL)
         return
     gen_errs = generate(ctx)
+    pins = structural_pins()
+    for e in pins:
+        ctx.log("structural pin failed:", e)
+        ctx.obligations.append(("structural-pin", False, e))
+    if not pins:
+        ctx.obligations.append(("structural-pin", True, "no-channel arm of can_forward_htlc_should_intercept: amount and CLTV sanity checks dominate the phantom/intercept outcomes"))
     for e in gen_errs:
         ctx.log("generation refused:", e)
         ctx.obligations.append(("rs2v-generation", False, e))
@@ -736,6 +870,8 @@ def run(ctx):
         broken.append({"obligation": "rs2v regeneration", "detail": gen_errs})
     elif not proved:
         broken.append({"obligation": "Coq proof of Props/C02.v", "detail": getattr(ctx, "proof_failure", {})})
+    if pins:
+        broken.append({"obligation": "structural pin", "detail": pins})
     if dis:
         broken.append({"correspondence": "h_fwdadm vs generated/hand model", "first_disagreements": dis[:5], "n": len(dis)})
     if tmism:
